@@ -16,6 +16,14 @@ import itertools
 from tools.vlib import sx, MAXU
 
 THEOREMS_FILE = "C11"
+TRUSTED = ["harness/src/c11.rs reads the stored data by parsing the derived Debug output of Matrix (`data: [...]`)"]
+ASSUMPTIONS = [
+    "C11_refines / C11_final_state assume that the element count fits a usize before every operation (`all_fit`): true of "
+    "every Vec; Clone and transpose re-validate the size with checked_mul and would otherwise panic",
+    "row_major_iter / column_major_iter are compared with the model's get(r, c) listing in that order (the iterators' own "
+    "counters are C09's subject)",
+    "histories are run with the element types i64 and a heap allocated non-Copy newtype; the theorems hold for every type",
+]
 
 ALL, NONE = [0], [1]
 
